@@ -456,6 +456,7 @@ type c13E2E struct {
 	Step     int64       `json:"step_ns"`
 	Series   []c13Series `json:"series"`
 	Requests []c13TR     `json:"requests_seen,omitempty"`
+	ReqSteps []int64     `json:"request_steps_ns,omitempty"`
 	Final    []c13R      `json:"result,omitempty"`
 	FinalLs  []string    `json:"result_labels,omitempty"`
 	Expected []c13R      `json:"expected_unsliced,omitempty"`
@@ -500,6 +501,7 @@ func (s *c13Server) ServeHTTP(w http.ResponseWriter, r *http.Request) {
 	}
 	c.mu.Lock()
 	c.Requests = append(c.Requests, c13TR{startMs * c13Ms, endMs * c13Ms})
+	c.ReqSteps = append(c.ReqSteps, stepMs*c13Ms)
 	c.mu.Unlock()
 	// random per-slice delay => arrival order of the slice responses varies
 	h := fnv.New64a()
@@ -601,6 +603,12 @@ func c13RunE2E(srv *c13Server, url string, c *c13E2E, watch *c13Watch) string {
 	}
 	if len(c.Requests) == 0 {
 		return "RangeQuery sent no query_range request"
+	}
+	for _, st := range c.ReqSteps {
+		if st != c.Step {
+			return fmt.Sprintf("a slice was requested with step %s but the query's step is %s: the slices are not evaluated on the step grid of the unsliced query",
+				time.Duration(st), time.Duration(c.Step))
+		}
 	}
 	first := c.Requests[0].S
 	c.Expected = c13Canon(c13Runs(c.Series, first, c13WireNs(c.End), c.Step))
@@ -826,6 +834,24 @@ func runC13(args []string) int {
 				dur = 1
 			}
 		}
+		minimal := false
+		var minB int64
+		if step >= 15*c13Sec && size >= 2*step && r.Intn(6) == 0 {
+			// minimal configurations: exactly two slices (the window starts x before a slice boundary and is y < x longer than
+			// one slice); with one series these give concatenated lists of 1, 2 or 3 ranges - the smallest inputs on which
+			// the cross-slice merge has anything to do
+			hist("e2e=minimal-two-slices")
+			minimal = true
+			b := c13RoundTo(c13Base(r), size)
+			minB = b
+			x := (1 + r.Int63n(size/step)) * step
+			if x >= size {
+				x = size - step
+			}
+			y := r.Int63n(x/c13Ms) * c13Ms
+			start, end = b-x, c13SafeNs(b-x+size+y)
+			dur = end - start
+		}
 		c := &c13E2E{ID: next(), Start: start, End: end, Lookback: dur, Step: step, PermResp: r.Intn(2) == 0}
 		g0 := c13RoundTo(start, size) - size
 		np := int((end-g0)/step) + 2
@@ -833,8 +859,26 @@ func runC13(args []string) int {
 		if per < 1 {
 			per = 1
 		}
-		for _, k := range c13PickSeries(r, hist) {
-			c.Series = append(c.Series, c13MkSeries(k, c13GenPresence(r, g0, step, np, per, hist)))
+		if minimal {
+			// one series: present throughout, or up to / from one point around the boundary, or with the boundary point missing
+			pt := func(i int) int64 { return g0 + int64(i)*step }
+			bi := int((minB - g0) / step) // index of the boundary between the two slices
+			var ivs []c13TR
+			switch r.Intn(4) {
+			case 0:
+				ivs = []c13TR{{pt(0), pt(np)}}
+			case 1:
+				ivs = []c13TR{{pt(0), pt(bi - 1 + r.Intn(3))}}
+			case 2:
+				ivs = []c13TR{{pt(bi - 1 + r.Intn(3)), pt(np)}}
+			default:
+				ivs = []c13TR{{pt(0), pt(bi - 1)}, {pt(bi + 1), pt(np)}}
+			}
+			c.Series = append(c.Series, c13MkSeries(r.Intn(len(c13Labels)), ivs))
+		} else {
+			for _, k := range c13PickSeries(r, hist) {
+				c.Series = append(c.Series, c13MkSeries(k, c13GenPresence(r, g0, step, np, per, hist)))
+			}
 		}
 		hist(fmt.Sprintf("e2e-series=%d", len(c.Series)))
 		e2e(c, "e2e")
